@@ -14,7 +14,7 @@ ID = "C16"
 TOLERANCES = {"outcome": "exception type (or absence); foreign-label writes must leave the object's bytes unchanged"}
 RULE = ("Enumerated completely: 9 classes x 6 coordinate labels x {cellsize, cellcenters, facecenters} x {get,set}; 9 x 6 "
         "component labels x {get,set}; 9 classes x every subset of periodic axes x every choice of flag (lo/hi/both) per "
-        "periodic axis, for boundaryConditionsTerm, CellVariable construction and solvePDE; constructor arities 0..7 x "
+        "periodic axis, for boundaryConditionsTerm, CellVariable construction, solvePDE, and every ordered pair of requests {solvePDE, solveExplicitPDE, apply_BCs} on one late-toggled variable (the refusal must be repeated); constructor arities 0..7 x "
         "{numbers, arrays}; initial-value shape families on six meshes; non-array a/b/c in each position; non-term objects in "
         "the term list on every class.  Generated: valid constructor forms / labels / term kinds on random grids with N>=1 "
         "(N=1 on some axis in ~half of the cases) must not raise.  Expected outcomes are transcribed from the docs "
@@ -252,6 +252,26 @@ def check(case):
         _expect(res, f"periodic-solve:{tag}", f"solvePDE after toggling periodic on axes {case['axes']} flags {case['flags']} on {name}{tuple(case['dims'])}", exc, want)
         if exc is None and want is None and not np.all(np.isfinite(np.asarray(v.value))):
             res.fail(f"periodic-solve-nonfinite:{tag}", f"solvePDE with periodic axes {case['axes']} gave non-finite values on {name}{tuple(case['dims'])}")
+        # the refusal is not a one-off: a program that catches the error and asks again (same or another entry point, same
+        # variable) must be refused again - and a supported declaration must keep working
+        nfull = int(np.prod([n + 2 for n in case['dims']]))
+        reqs = dict(solvePDE=lambda v: pf.solvePDE(v, [pf.transientTerm(v, 1.0, 1.0), -pf.diffusionTerm(pf.FaceVariable(m, 1.0))]),
+                    solveExplicitPDE=lambda v: pf.solveExplicitPDE(v, 0.1, np.zeros(nfull)),
+                    apply_BCs=lambda v: v.apply_BCs())
+        for r1 in reqs:
+            for r2 in reqs:
+                v = pf.CellVariable(m, 1.0)
+                for ax, fl in zip(case['axes'], case['flags']):
+                    lo, hi = SIDES[ax]
+                    if fl in ('lo', 'both'):
+                        getattr(v.BCs, lo).periodic = True
+                    if fl in ('hi', 'both'):
+                        getattr(v.BCs, hi).periodic = True
+                e1, _ = _outcome(lambda: reqs[r1](v))
+                e2, _ = _outcome(lambda: reqs[r2](v))
+                _expect(res, f"periodic-first:{r1}:{tag}", f"{r1} after toggling periodic on axes {case['axes']} flags {case['flags']} on {name}{tuple(case['dims'])}", e1, want)
+                _expect(res, f"periodic-again:{r1}>{r2}:{tag}", f"{r2} following a{' refused' if want else ''} {r1} on the same variable, periodic axes {case['axes']} flags "
+                        f"{case['flags']} on {name}{tuple(case['dims'])}", e2, want)
         return res
     if k == 'arity':
         name, ar, typ = case['grid'], case['arity'], case['typ']
